@@ -734,7 +734,16 @@ func (peer *peer) handleUpdate(e *fsmMsg) ([]*table.Path, []bgp.Family, bool) {
 		for _, af := range conf.AfiSafis {
 			if isLimit := peer.isPrefixLimit(af.State.Family, &af.PrefixLimit.Config); isLimit {
 				peer.fsm.lock.Unlock()
-				return nil, nil, true
+				// The Adj-RIB-In has taken this UPDATE already. What it withdrew must
+				// still leave the Loc-RIB: it is gone from the Adj-RIB-In, so the
+				// clean-up at session end would not find it any more.
+				withdrawn := make([]*table.Path, 0, len(paths))
+				for _, p := range paths {
+					if p.IsWithdraw {
+						withdrawn = append(withdrawn, p)
+					}
+				}
+				return withdrawn, nil, true
 			}
 		}
 		peer.fsm.lock.Unlock()
